@@ -76,7 +76,7 @@ class Scale(tuple):
         if acc == 0:
             return base_key
         else:
-            return base_key + acc * (spo / self._ppo)
+            return base_key + acc * (spo / 12.0)
 
     def key_to_degree(self, note):  # note in spo, midinote/note?
         spo = self.tuning._spo
